@@ -1,17 +1,81 @@
 (* C07 - every awaited runtime future resolves exactly once with its own result.
-   Only statements closed by `exact`; model in rt/WorkerM.v, proofs in rt/WorkerThm.v. *)
+   Only statements closed by `exact`; model in rt/WorkerM.v, proofs in rt/WorkerThm.v.
+
+   Vocabulary (defined in rt/WorkerM.v / rt/WorkerThm.v):
+     steps atomic (sys0 k) es = Some s   s is reached from k idle workers by the event list es
+                                         (EClient / ERecv i / EMain i / EServer i asg: any delivery
+                                         order, any interleaving of the two threads of a worker,
+                                         any assignment made by the server)
+     atomic = false                      the code as it is; atomic = true: _process_await's
+                                         registration (dest_addr, wake_on_next, ready test) is one atom
+     reachable atomic k s                exists es, steps atomic (sys0 k) es = Some s
+     slot_spec sc f i v                  the f-th submit/map of body sc has an i-th child whose body
+                                         returns v
+     n_task a s                          instances of the task with return address a in a channel,
+                                         in a _delayed_tasks or in a _tasks
+     n_fin / n_created / n_started       ... that returned / were created / had task.start() called *)
 From Coq Require Import List Arith.
 Import ListNotations.
 From BQ Require Import rt.WorkerM rt.WorkerThm.
 
-(* D7 (finding).  The code as it is (atomic = false): a RESULT handled between
-   `box.dest_addr = ...` and `if box.ready` of Worker._process_await puts the awaiting task
-   into the ready queue twice; the second wake-up later fails `assert box.ready` in
-   _get_desired_result and an ERROR for the compilation reaches the client.
-   13 + 9 events on two workers, no cancellation involved. *)
+(* ---- D7 (finding) -------------------------------------------------------------------
+   The code as it is: a RESULT handled between `box.dest_addr = ...` and `if box.ready` of
+   Worker._process_await puts the awaiting task into the ready queue twice; the second
+   wake-up later fails `assert box.ready` in _get_desired_result and an ERROR for the
+   compilation reaches the client.  13 + 9 events on two workers, no cancellation. *)
 Theorem C07_wake_once_refuted :
   exists s s',
     steps false (sys0 2) d7_schedule = Some s /\ in_scope s = true /\ ~ wake_once s /\
     steps false s d7_continuation = Some s' /\ in_scope s' = true /\
     In EAssertReady (all_errs s') /\ s_errors s' = [0].
 Proof. exact d7_double_wake. Qed.
+
+(* ---- every task is in exactly one place; every body starts at most once ----------------
+   For BOTH variants, all schedules, all scripts (cancellation included: the invariant does
+   not depend on it). *)
+Theorem C07_task_conservation : forall atomic k s, reachable atomic k s ->
+  forall a, n_task a s + n_fin a s = n_created a s /\ n_created a s <= 1 /\
+            n_started a s <= n_created a s /\
+            (quiescent_tasks s -> n_started a s = n_created a s).
+Proof. exact task_conservation. Qed.
+
+(* ---- values: an await never sees a value of another call -------------------------------
+   Every filled cell of the value of `await fut` and every (slot, value) pair returned by
+   next(fut) is the Return value of the child created for that slot of that future (map:
+   argument order); the value the server holds for a client is the Return value of the root
+   body submitted under that mailbox id, and mailbox ids identify roots. *)
+Theorem C07_slot_values_partial : forall atomic k s, reachable atomic k s ->
+  (forall w a sc mo f vs, In w (s_workers s) -> In (a, sc, mo, OAwait f vs) (w_log w) ->
+     forall i v, nth_error vs i = Some (Some v) -> slot_spec sc f i v) /\
+  (forall w a sc mo f bt, In w (s_workers s) -> In (a, sc, mo, ONext f bt) (w_log w) ->
+     forall i v, In (i, v) bt -> slot_spec sc f i v) /\
+  (forall a v, In (a, v) (s_client s) -> In (a_box a, v) (s_roots s)) /\
+  (forall b v v', In (b, v) (s_roots s) -> In (b, v') (s_roots s) -> v = v').
+Proof. exact slot_values. Qed.
+
+(* ---- non-vacuity: a run in which a map of two and a submit are awaited, on 2 workers ---- *)
+Definition ex_root : script := [Map [[Return 5]; [Return 6]]; Submit [Return 7]; Await 0; Await 1; Return 1].
+(* the event list of a run of the REAL runtime (harness/rtsim.py, seed 1), replayed by the model *)
+Definition ex_run : list event :=
+  [EClient ex_root 1; EMain 0; EMain 1; EMain 0; ERecv 1; EServer 0 []; EMain 1; EServer 1 [(0,[0]); (1,[1])];
+   EServer 1 [(0,[0])]; EMain 1; ERecv 1; ERecv 0; ERecv 0; EMain 1; EMain 0; EServer 0 []; ERecv 1; EMain 0;
+   EMain 1; EMain 1; EMain 0; EMain 1; EMain 0; EMain 1; EMain 0; EServer 0 []; EServer 0 []; EServer 1 [];
+   ERecv 1; EMain 1; EMain 1; EMain 1; EMain 1; EMain 1; EMain 1; EServer 1 []; EMain 1; EMain 1; EServer 1 []].
+Definition ex_root_addr : addr := mkAddr DClient 0 0.
+
+Example C07_nonvacuous :
+  exists s, steps false (sys0 2) ex_run = Some s /\ reachable false 2 s /\
+    s_client s = [(ex_root_addr, 1)] /\ s_roots s = [(0, 1)] /\
+    In (ex_root_addr, ex_root, Some 0, OAwait 0 [Some 5; Some 6]) (all_logs s) /\
+    In (ex_root_addr, ex_root, Some 1, OAwait 1 [Some 7]) (all_logs s) /\
+    slot_spec ex_root 0 1 6 /\ all_errs s = [] /\ in_scope s = true /\
+    n_created (mkAddr (DWorker 1) 0 1) s = 1 /\ n_fin (mkAddr (DWorker 1) 0 1) s = 1 /\ n_started (mkAddr (DWorker 1) 0 1) s = 1.
+Proof.
+  destruct (steps false (sys0 2) ex_run) as [s|] eqn:E; [|vm_compute in E; discriminate].
+  exists s. split; [reflexivity|]. split; [exists ex_run; exact E|].
+  vm_compute in E. injection E as <-.
+  repeat split; try reflexivity.
+  - vm_compute. auto.
+  - vm_compute. auto 10.
+  - exists (FMap [[Return 5]; [Return 6]]). split; reflexivity.
+Qed.
